@@ -23,6 +23,7 @@ type Run struct {
 	lfMemo map[string]*LockFacts
 	cfMemo map[string]*CoreFlow
 	mpMemo map[string]*MethodPaths
+	inlineMemo map[*ssa.Function]bool
 }
 
 func NewRun(p *core.Prog, tier string) *Run {
@@ -332,3 +333,110 @@ func funcOfValue(v ssa.Value, depth int) (*ssa.Function, *ssa.MakeClosure) {
 	}
 	return nil, nil
 }
+
+// roleFuncs are the functions the rules treat by identity (never analysed in place).
+func roleFuncs(r *Run) map[*ssa.Function]bool {
+	out := map[*ssa.Function]bool{}
+	for _, mm := range r.M.Maps {
+		for _, f := range []*ssa.Function{mm.Core, mm.Resize, mm.Wait, mm.Copy, mm.Append, mm.NewTable, mm.AddSize, mm.AddPlain, mm.SumSize, mm.InProg, mm.NewerTbl, mm.IsEmpty} {
+			if f != nil {
+				out[f] = true
+			}
+		}
+		for _, n := range mapAPINames {
+			if f := mm.Methods[n]; f != nil {
+				out[f] = true
+			}
+		}
+		for _, f := range mm.Ctor {
+			out[f] = true
+		}
+	}
+	for f := range r.M.Acquire {
+		out[f] = true
+	}
+	for f := range r.M.Release {
+		out[f] = true
+	}
+	for f := range r.M.Wrappers {
+		out[f] = true
+	}
+	return out
+}
+
+// helperInline returns the predicate used by the path engines: an in-package helper that is not a role
+// function and contains something an automaton can care about (memory writes, atomics, lock operations,
+// calls of function values or of role functions) is analysed in place.
+func helperInline(r *Run) func(*ssa.Function, ssa.CallInstruction) bool {
+	if r.inlineMemo == nil {
+		r.inlineMemo = map[*ssa.Function]bool{}
+		roles := roleFuncs(r)
+		interesting := map[*ssa.Function]bool{}
+		for changed := true; changed; {
+			changed = false
+			for _, f := range r.P.Funcs {
+				if interesting[f] || f.Pkg != r.P.Xsync {
+					continue
+				}
+				core.Instrs(f, func(in ssa.Instruction) {
+					if interesting[f] {
+						return
+					}
+					switch x := in.(type) {
+					case *ssa.Store:
+						if _, isAlloc := x.Addr.(*ssa.Alloc); !isAlloc {
+							interesting[f] = true
+						}
+					case ssa.CallInstruction:
+						if _, _, ok := core.AtomicOp(x); ok {
+							interesting[f] = true
+						} else if cal := core.Callee(x); cal == nil && core.IsBuiltinCall(x) == "" {
+							interesting[f] = true
+						} else if cal != nil && (roles[cal] || interesting[cal]) {
+							interesting[f] = true
+						}
+					}
+					if interesting[f] {
+						changed = true
+					}
+				})
+			}
+		}
+		for f, ok := range interesting {
+			if ok && !roles[f] && f.Parent() == nil {
+				r.inlineMemo[f] = true
+			}
+		}
+	}
+	return func(f *ssa.Function, _ ssa.CallInstruction) bool { return r.inlineMemo[f] }
+}
+
+// mapFuncs lists the xsync functions that belong to one map implementation: everything statically reachable
+// from its API methods (helpers extracted from them included), lock helpers excluded.
+func mapFuncs(r *Run, mm *core.MapModel) []*ssa.Function {
+	seen := map[*ssa.Function]bool{}
+	var out []*ssa.Function
+	var visit func(f *ssa.Function)
+	visit = func(f *ssa.Function) {
+		if f == nil || seen[f] || f.Pkg != r.P.Xsync || f.Blocks == nil || r.M.Acquire[f] || r.M.Release[f] {
+			return
+		}
+		seen[f] = true
+		out = append(out, f)
+		core.Instrs(f, func(in ssa.Instruction) {
+			if c, ok := in.(ssa.CallInstruction); ok {
+				visit(core.Callee(c))
+			}
+			if mc, ok := in.(*ssa.MakeClosure); ok {
+				visit(mc.Fn.(*ssa.Function))
+			}
+		})
+	}
+	for _, n := range mapAPINames {
+		visit(mm.Methods[n])
+	}
+	sort.Slice(out, func(i, j int) bool { return out[i].Pos() < out[j].Pos() })
+	return out
+}
+
+var mapAPINames = []string{"Load", "Store", "LoadOrStore", "LoadAndStore", "LoadOrCompute", "Compute", "LoadAndDelete", "Delete", "Range", "Clear", "Size"}
